@@ -59,6 +59,7 @@ def run(P, R, tier):
     ]
     K = KN.get(P)
     crossreset_rule(P, R)
+    onceflag_rule(P, R)
     # ------------------------------------------------------------------ C10.findopt
     R.rule("C10.findopt", "CParser::find_option: lower-cased token, exact match first, then first entry that begins with it", minimum=1)
     shape, desc = rawio.find_option_shape(P)
@@ -696,3 +697,56 @@ def crossreset_rule(P, R):
                 R.ok("C10.crossreset", inst, "no unconditional cross-write")
     if n < 150:
         R.anchor_missing("C10.crossreset", "only %d read_raw option handlers examined" % n)
+
+
+def onceflag_rule(P, R):
+    """A list option of a RAW block may continue over several lines (dump_raw wraps long lists).  Readers that must replace the
+    list of a *_MODIFY clear it once, on the first line of the option, guarded by a one-shot flag (`if (!cleared_once) { clear;
+    cleared_once = true; }`).  The flag has to live across the iterations of the option loop: declared inside the loop it is
+    false again on every line, each continuation line clears the list, and only the last dumped line survives."""
+    R.rule("C10.onceflag", "one-shot flags of the RAW readers are declared outside the option loop they guard", minimum=5)
+    LOOPS = ("For", "While", "Do", "RangeFor")
+    n = 0
+    for key, f in sorted(P.functions.items()):
+        if f["name"] not in ("read_raw", "Read", "read"):
+            continue
+        decls = {}
+        uses = {}
+
+        def rec(nd, loops):
+            if not T.is_node(nd):
+                return
+            if nd[0] in LOOPS:
+                for c in T.children(nd):
+                    rec(c, loops + [nd[1]])
+                return
+            if nd[0] == "Decl":
+                for d in nd[2]:
+                    if d[1] in ("bool", "_Bool") and T.is_node(d[2]) and T.lit_value(d[2]) == 0:
+                        decls[d[0]] = (nd[1], tuple(loops))
+            if nd[0] == "Bin" and nd[2] == "=" and T.strip_casts(nd[3])[0] == "Ref" and T.lit_value(nd[4]) == 1:
+                uses.setdefault(T.strip_casts(nd[3])[3], []).append(("set", nd[1], tuple(loops)))
+            if nd[0] == "If":
+                for y in T.walk(nd[2]):
+                    if y[0] == "Ref" and y[2] == "local":
+                        uses.setdefault(y[3], []).append(("test", nd[1], tuple(loops)))
+            for c in T.children(nd):
+                rec(c, loops)
+        rec(f["body"], [])
+        for nm, (line, dloops) in sorted(decls.items()):
+            us = uses.get(nm, [])
+            sets = [u for u in us if u[0] == "set" and u[2]]
+            tests = [u for u in us if u[0] == "test" and u[2]]
+            if not sets or not tests:
+                continue
+            n += 1
+            inst = "%s:%s" % (f["q"], nm)
+            inner = min(len(u[2]) for u in sets + tests)
+            if len(dloops) == 0 or len(dloops) < inner:
+                R.ok("C10.onceflag", inst, "declared outside the loop it guards")
+            else:
+                R.violation("C10.onceflag", inst, "the one-shot flag `%s` is declared (line %d) inside the loop in which it is tested and set: it is false again on every line, so a list option "
+                            "that continues over several lines is cleared on each of them and only the last line of a dumped list survives" % (nm, line),
+                            file=f["file"], line=line, function=f["q"])
+    if n < 5:
+        R.anchor_missing("C10.onceflag", "only %d one-shot flags found in the RAW readers" % n)
